@@ -125,7 +125,9 @@ def describe(name, cls):
         # documented: the request must reach beyond the elastic wave ("reduce time or increase xmax"): a single point is the far one
         s.points = (lambda n: [0.05] if n == 1 else lin(0.001, 0.05)(n)); s.t = 0.05
     elif pk == "guderley":
-        s.cost = "veryslow"; s.t = 0.5
+        # the similarity exponent takes 2 - 4 minutes per call for gamma = 1.4 or 5/3 and half a second for gamma = 2 or 3;
+        # t = 0.7 is before, 1.3 t after the collapse (the shock reaches the centre at t = 0.75 and is reflected)
+        s.kwargs = {"gamma": 3.0}; s.cost = "slow"; s.t = 0.7; s.points = lin(0.05, 1.5)
     elif name == "heat.cylindrical_sandwich.CylindricalSandwich":
         s.shape = "2N"; s.points = pairs(lin(0.3, 0.8), lin(0.2, 1.2)); s.t = 0.1; s.cost = "slow"
     elif name == "heat.hutchens1.Hutchens1":
@@ -268,7 +270,7 @@ STATEFUL = {
     "riemann.ep_riemann.GenEOS_Solver": ("attr", "riemann", {"ul": 0.5, "gr": 5.0 / 3.0, "pr": 0.2, "num_x_pts": 1001, "num_int_pts": 1001}),
     "radshocks.nED_radshocks.ED_Solver": ("eager", "radshocks", {"M0": 1.4}),
     "riemann.ep_riemann.GenEOS_Solver@JWL": ("attr", "riemann", {"A": 6.0}),
-    "guderley.guderley.Guderley": ("glob", "guderley.ramsey", {"gamma": 3.0}),
+    "guderley.guderley.Guderley": ("glob", "guderley.ramsey", {"gamma": 2.0, "rho0": 2.5, "geometry": 2}),
 }
 # request-grid dependence that the documentation states (values may move within the
 # documented resolution when the *batch* changes; never when only history changes)
